@@ -1,20 +1,22 @@
 """Implementation runner for C17 (patterned dates/times).
 
-Input : {'groups': [{'engine': 'v0'|'v1', 'fields': [{'ann': <annotation source>, 'inputs': [<str | list | dict>]}]}]}
+Input : {'groups': [{'engine': 'v0'|'v1', 'header': <source of NamedTuple / TypedDict / nested dataclass classes and of shared
+          module-level pattern objects>, 'fields': [{'ann': <annotation source>, 'inputs': [<JSON value>]}]}]}
 One dataclass per group (written as source text, one patterned field per entry, every
 field defaulting to None so that fields are loaded one at a time); per input:
     load  -> canonical value / error,
     dump  -> asdict(...) of the loaded instance (the field's dumped form),
     again -> load of that dump, with Python equality and type equality against the first load.
-Canonical date/time values: {'t': class name, 'f': [y, m, d, h, mi, s, us, fold], 'tz': None | ['zone', key] | ['off', secs]}.
+Canonical date/time values: {'t': class name, 'f': [y, m, d, h, mi, s, us, fold], 'tz': None | ['zone', key] | ['off', secs]};
+containers: {'seq': 'list'|'tuple', 'items'}, {'nt': NamedTuple class, 'items'}, {'map': [[key, value]]}, {'dc': class, 'fields'}.
 """
-import sys, os, types, datetime, zoneinfo
+import sys, os, types, datetime, zoneinfo, dataclasses
 sys.path.insert(0, os.path.dirname(os.path.abspath(__file__)))
 from _util import main
 
 HEADER = '''from dataclasses import dataclass
 from datetime import date, time, datetime
-from typing import Annotated, List, Dict, Optional
+from typing import Annotated, List, Dict, Optional, Tuple, Union, NamedTuple, TypedDict
 from dataclass_wizard import fromdict, asdict, LoadMeta
 %s
 
@@ -29,6 +31,9 @@ class MyTime(time):
 
 class MyDT(datetime):
     pass
+
+
+%s
 
 
 @dataclass
@@ -60,10 +65,22 @@ def canon(v):
         return {'t': type(v).__name__, 'f': [v.year, v.month, v.day, 0, 0, 0, 0, 0], 'tz': None}
     if isinstance(v, datetime.time):
         return {'t': type(v).__name__, 'f': [0, 0, 0, v.hour, v.minute, v.second, v.microsecond, v.fold], 'tz': tzd(v.tzinfo)}
-    if isinstance(v, list):
-        return {'list': [canon(x) for x in v]}
+    if isinstance(v, bool):
+        return {'bool': v}
+    if isinstance(v, int):
+        return {'int': v}
+    if isinstance(v, float):
+        return {'float': v.hex()}
+    if isinstance(v, str):
+        return {'str': v}
+    if isinstance(v, tuple) and hasattr(v, '_fields'):
+        return {'nt': type(v).__name__, 'items': [canon(x) for x in v]}
+    if isinstance(v, (list, tuple)):
+        return {'seq': type(v).__name__, 'items': [canon(x) for x in v]}
     if isinstance(v, dict):
-        return {'dict': [[k, canon(x)] for k, x in v.items()]}
+        return {'map': [[canon(k), canon(x)] for k, x in v.items()]}
+    if dataclasses.is_dataclass(v):
+        return {'dc': type(v).__name__, 'fields': [[f.name, canon(getattr(v, f.name))] for f in dataclasses.fields(v)]}
     return {'other': type(v).__name__, 'repr': repr(v)[:80]}
 
 
@@ -77,11 +94,16 @@ def err(e):
 
 
 def same_types(a, b):
-    if isinstance(a, list) and isinstance(b, list):
+    if type(a) is not type(b):
+        return False
+    if isinstance(a, (list, tuple)):
         return len(a) == len(b) and all(same_types(x, y) for x, y in zip(a, b))
-    if isinstance(a, dict) and isinstance(b, dict):
-        return list(a) == list(b) and all(same_types(a[k], b[k]) for k in a)
-    return type(a) is type(b) and getattr(a, 'tzinfo', None) == getattr(b, 'tzinfo', None)
+    if isinstance(a, dict):
+        return len(a) == len(b) and all(same_types(x, y) for x, y in zip(a, b)) and \
+            all(same_types(x, y) for x, y in zip(a.values(), b.values()))
+    if dataclasses.is_dataclass(a):
+        return all(same_types(getattr(a, f.name), getattr(b, f.name)) for f in dataclasses.fields(a))
+    return getattr(a, 'tzinfo', None) == getattr(b, 'tzinfo', None)
 
 
 def run_group(g, idx):
@@ -89,7 +111,7 @@ def run_group(g, idx):
     mod = types.ModuleType(name)
     sys.modules[name] = mod
     lines = ['    f%d: %s = None' % (i, f['ann']) for i, f in enumerate(g['fields'])]
-    src = HEADER % (IMPORTS[g['engine']], '\n'.join(lines))
+    src = HEADER % (IMPORTS[g['engine']], g.get('header', ''), '\n'.join(lines))
     if g['engine'] == 'v1':
         src += '\nLoadMeta(v1=True).bind_to(C)\n'
     out = []
